@@ -1,17 +1,6 @@
 // ---- assumed std specifications and N7/N9 combinators shared by the driver and binding units ----
 
-// [A-std] slice::Iter::position: index of the first element accepted by the predicate
-pub assume_specification<'a, T, P: FnMut(&'a T) -> bool>[ <core::slice::Iter<'a, T> as Iterator>::position ](it: &mut core::slice::Iter<'a, T>, pred: P) -> (r: Option<usize>)
-    where core::slice::Iter<'a, T>: Sized,
-    requires
-        forall|i: int| 0 <= i < old(it).remaining().len() ==> call_requires(pred, (old(it).remaining()[i],)),
-    ensures
-        match r {
-            Some(n) => n < old(it).remaining().len() && call_ensures(pred, (old(it).remaining()[n as int],), true)
-                && (forall|m: int| 0 <= m < n ==> call_ensures(pred, (#[trigger] old(it).remaining()[m],), false)),
-            None => forall|m: int| 0 <= m < old(it).remaining().len() ==> call_ensures(pred, (#[trigger] old(it).remaining()[m],), false),
-        };
-
+//@include spec/position.spec.rs
 // [A-std] slice::contains for a type whose == is value equality
 pub assume_specification<T: PartialEq>[ <[T]>::contains ](s: &[T], x: &T) -> (r: bool)
     ensures T::obeys_eq_spec() ==> r == (exists|i: int| 0 <= i < s@.len() && (#[trigger] s@[i]).eq_spec(x));
@@ -36,18 +25,3 @@ fn verif_filter_map<T, R, F: FnMut(&T) -> Option<R>>(xs: &[T], f: F) -> (r: Vec<
 }
 
 
-// N7 [A-std]: `v.iter().position(f)` on a Vec is emitted as `verif_position(&v, f)`: index of the first element accepted by f
-#[verifier::external_body]
-fn verif_position<T, F: FnMut(&T) -> bool>(xs: &Vec<T>, f: F) -> (r: Option<usize>)
-    requires
-        forall|i: int| 0 <= i < xs@.len() ==> call_requires(f, (&xs@[i],)),
-    ensures
-        xs@.len() <= usize::MAX,
-        match r {
-            Some(n) => n < xs@.len() && call_ensures(f, (&xs@[n as int],), true)
-                && (forall|m: int| 0 <= m < n ==> call_ensures(f, (&#[trigger] xs@[m],), false)),
-            None => forall|m: int| 0 <= m < xs@.len() ==> call_ensures(f, (&#[trigger] xs@[m],), false),
-        },
-{
-    xs.iter().position(f)
-}
